@@ -510,11 +510,14 @@ func contains(s, sub string) bool { return strings.Contains(s, sub) }
 // directly (short qualified names).
 func sentinelSet(fn *ssa.Function) map[string]bool {
 	out := map[string]bool{}
-	for _, r := range Returns(fn) {
-		ev := retErrVal(r)
-		if u, ok := ev.(*ssa.UnOp); ok && u.Op == token.MUL {
-			if g, ok := u.X.(*ssa.Global); ok && g.Pkg != nil {
-				out[short(g.Pkg.Pkg.Path())+"."+g.Name()] = true
+	// fn and the new helpers it calls (ip.go): what a helper returns, the family returns
+	for _, f := range append([]*ssa.Function{fn}, helpersOf(fn)...) {
+		for _, r := range Returns(f) {
+			ev := retErrVal(r)
+			if u, ok := ev.(*ssa.UnOp); ok && u.Op == token.MUL {
+				if g, ok := u.X.(*ssa.Global); ok && g.Pkg != nil {
+					out[short(g.Pkg.Pkg.Path())+"."+g.Name()] = true
+				}
 			}
 		}
 	}
